@@ -1,5 +1,5 @@
 /-
-  Mrm/Proofs/Find.lean — `find_child` on well-formed child lists: no exception, and the result is
+  Mrm/Proofs/Find.lean — `find_child` on any child list: no exception, and the result is
   the first child with the tag whose ID text is the one asked for.
 -/
 import Mrm.Model.Merge
@@ -13,61 +13,62 @@ def isChild (tag k : String) (c : Xml) : Bool := c.tag == tag && keyOf tag c == 
 theorem keyOf_eq (tag : String) (c e : Xml) (h : c.find (tag ++ "ID") = some e) : keyOf tag c = e.text := by
   simp [keyOf, Xml.childText, h]
 
-theorem findChildLoop_ok (tag k : String) (cs : List Xml) (n : Nat) (hw : WfKids tag cs = true) :
+theorem keyOf_none (tag : String) (c : Xml) (h : c.find (tag ++ "ID") = none) : keyOf tag c = none := by
+  simp [keyOf, Xml.childText, h]
+
+/-- `find_child` never raises: a child without its ID tag is skipped, which is what `isChild`
+    (key = `some k`) says of it too -/
+theorem findChildLoop_ok (tag k : String) (cs : List Xml) (n : Nat) :
     findChildLoop tag k cs n = .ok ((cs.findIdx? (isChild tag k)).map (· + n)) := by
   induction cs generalizing n with
   | nil => simp [findChildLoop]
   | cons c cs ih =>
-    simp only [WfKids, List.all_cons, Bool.and_eq_true] at hw
-    obtain ⟨hc, hcs⟩ := hw
-    have ih' := ih (n+1) (by simpa [WfKids] using hcs)
+    have ih' := ih (n+1)
     unfold findChildLoop
     by_cases ht : (c.tag == tag) = true
     · simp only [ht, if_true]
-      have : (c.find (tag ++ "ID")).isSome = true := by
-        simp only [Bool.or_eq_true, bne_iff_ne, ne_eq] at hc
-        rcases hc with h | h
-        · exfalso; apply h; simpa using ht
-        · exact h
-      obtain ⟨e, he⟩ := Option.isSome_iff_exists.mp this
-      simp only [he]
-      by_cases hk : e.text = some k
-      · have : isChild tag k c = true := by simp [isChild, ht, keyOf_eq tag c e he, hk]
-        simp [hk, List.findIdx?_cons, this]
-      · have : isChild tag k c = false := by simp [isChild, keyOf_eq tag c e he, hk]
-        simp only [List.findIdx?_cons, this]
-        have hb : (e.text == some k) = false := by simpa using hk
-        simp only [hb, ih']
+      cases he : c.find (tag ++ "ID") with
+      | none =>
+        have : isChild tag k c = false := by simp [isChild, keyOf_none tag c he]
+        simp only [List.findIdx?_cons, this, ih']
         cases List.findIdx? (isChild tag k) cs <;> simp [Nat.add_assoc, Nat.add_comm 1 n]
+      | some e =>
+        simp only
+        by_cases hk : e.text = some k
+        · have : isChild tag k c = true := by simp [isChild, ht, keyOf_eq tag c e he, hk]
+          simp [hk, List.findIdx?_cons, this]
+        · have : isChild tag k c = false := by simp [isChild, keyOf_eq tag c e he, hk]
+          simp only [List.findIdx?_cons, this]
+          have hb : (e.text == some k) = false := by simpa using hk
+          simp only [hb, ih']
+          cases List.findIdx? (isChild tag k) cs <;> simp [Nat.add_assoc, Nat.add_comm 1 n]
     · have : isChild tag k c = false := by simp [isChild, ht]
       simp only [ht, List.findIdx?_cons, this, ih']
       cases List.findIdx? (isChild tag k) cs <;> simp [Nat.add_assoc, Nat.add_comm 1 n]
 
-/-- the pure lookup the model reduces to on well-formed child lists -/
+/-- the pure lookup the model reduces to -/
 def locate (tag : String) (cs : List Xml) (id : Key) : Option Nat :=
   match id with
   | none => none
   | some k => cs.findIdx? (isChild tag k)
 
-theorem findChildId_ok (tag : String) (cs : List Xml) (id : Key) (hw : WfKids tag cs = true) :
+theorem findChildId_ok (tag : String) (cs : List Xml) (id : Key) :
     findChildId cs tag id = .ok (locate tag cs id) := by
   cases id with
   | none => rfl
   | some k =>
-    simp only [findChildId, locate, findChildLoop_ok tag k cs 0 hw]
+    simp only [findChildId, locate, findChildLoop_ok tag k cs 0]
     cases List.findIdx? (isChild tag k) cs <;> simp
 
-theorem findRequired_ok (tag : String) (mid : Option PyExc) (cs : List Xml) (id : Key)
-    (hw : WfKids tag cs = true) :
+theorem findRequired_ok (tag : String) (mid : Option PyExc) (cs : List Xml) (id : Key) :
     findRequired tag mid cs id =
       match locate tag cs id with
       | some i => .ok i
       | none => .error (raiseMerge mid) := by
-  simp only [findRequired, findChildId_ok tag cs id hw]
+  simp only [findRequired, findChildId_ok tag cs id]
   cases locate tag cs id <;> rfl
 
-theorem findTarget_ok (tag : String) (mid : Option PyExc) (cs : List Xml) (id : Key)
-    (hw : WfKids tag cs = true) :
+theorem findTarget_ok (tag : String) (mid : Option PyExc) (cs : List Xml) (id : Key) :
     findTarget tag mid cs id =
       match id with
       | none => .ok none
@@ -78,7 +79,7 @@ theorem findTarget_ok (tag : String) (mid : Option PyExc) (cs : List Xml) (id : 
   cases id with
   | none => rfl
   | some k =>
-    simp only [findTarget, locate, findChildLoop_ok tag k cs 0 hw]
+    simp only [findTarget, locate, findChildLoop_ok tag k cs 0]
     cases List.findIdx? (isChild tag k) cs <;> simp
 
 /-- a successful lookup: the index is valid, the child has the tag and the key, nothing earlier has -/
